@@ -164,12 +164,11 @@ impl<NodeID: Copy + Hash + Integer, Weight: Bounded + Copy + Integer + Debug, Da
     }
 
     pub fn flush(&mut self) {
-        (1..(self.heap.len() - 1)).rev().for_each(|i| {
+        (1..self.heap.len()).rev().for_each(|i| {
             let element = &self.heap[i];
             self.inserted_nodes[element.index].key = 0;
         });
         self.heap.truncate(1);
-        self.heap[0].weight = Weight::max_value();
     }
 
     pub fn decrease_key(&mut self, node: NodeID, weight: Weight) {
